@@ -18,64 +18,67 @@ namespace Parser
 def externalMatches (rest : List Bytes) : ArgMap :=
   [([], { source := some .cmdline, rawVals := [rest] })]
 
-mutual
-/-- `Parser::parse`: the token loop, then the descent into the subcommand.
-`fuel` bounds the number of descents (never exhausted when `fuel > height`). -/
-def parse (similar : Bytes → Bytes → Bool) : Nat → Cmd → List Bytes → P → R Unit
-  | fuel, c, toks, p =>
-    match loop c similar {} toks p with
-    | (p1, .error e) => (p1, .error e)
-    | (p1, .ok .done) => (p1, .ok ())
-    | (p1, .ok (.external name rest)) => ({ p1 with sub := [(name, externalMatches rest)] }, .ok ())
-    | (p1, .ok (.sub name rest keep vaf)) =>
-      if c.settings.argsConflictsWithSubcommands && vaf then
-        -- `matcher.arg_ids().map(|id| self.cmd.find(id).unwrap())`
-        if p1.args.ids.any fun id => (c.find id).isNone then (p1, .error (.panic "subcommand_conflict: find(id).unwrap()"))
-        else (p1, .error .argumentConflict)
-      else parseSub similar fuel c name rest keep p1
+/-- the descent into a subcommand: `Parser::get_matches_with` of the child -/
+abbrev Descend := Cmd → List Bytes → P → Option (R Unit)
 
-/-- the tail of `Parser::parse` after the loop: conflict check, `parse_subcommand` -/
-def parseSub (similar : Bytes → Bytes → Bool) : Nat → Cmd → Bytes → List Bytes → Bool → P → R Unit
-  | 0, _, _, _, _, p => (p, .error .outOfFuel)
-  | fuel+1, c, name, rest, keep, p =>
-    match c.findSubcommand name with
-    | none => (p, .error (.panic "find_subcommand: expect"))
-    | some sc =>
-      let p0 : P := if keep then { curIdx := p.curIdx, flagSubAt := p.flagSubAt, flagSubSkip := p.flagSubSkip } else {}
-      match getMatchesWith similar fuel sc rest p0 with
-      | (ps, .error e) =>
-        match e with
-        | .panic _ => (p, .error e)
-        | .outOfFuel => (p, .error e)
-        | _ =>
-          if c.settings.ignoreErrors then ({ p with sub := (sc.name, ps.args) :: ps.sub }, .ok ())
-          else (p, .error e)
-      | (ps, .ok ()) => ({ p with sub := (sc.name, ps.args) :: ps.sub }, .ok ())
+/-- the tail of `Parser::parse` after the loop: `find_subcommand`, `parse_subcommand` -/
+def parseSub (descend : Descend) (c : Cmd) (name : Bytes) (rest : List Bytes) (keep : Bool) (p : P) : Option (R Unit) :=
+  match c.findSubcommand name with
+  | none => some (p, .error (.panic "find_subcommand: expect"))
+  | some sc =>
+    let p0 : P := if keep then { curIdx := p.curIdx, flagSubAt := p.flagSubAt, flagSubSkip := p.flagSubSkip } else {}
+    match descend sc rest p0 with
+    | none => none
+    | some (ps, .error e) =>
+      match e with
+      | .panic _ => some (p, .error e)
+      | _ =>
+        if c.settings.ignoreErrors then some ({ p with sub := (sc.name, ps.args) :: ps.sub }, .ok ())
+        else some (p, .error e)
+    | some (ps, .ok ()) => some ({ p with sub := (sc.name, ps.args) :: ps.sub }, .ok ())
 
-/-- `Parser::get_matches_with` -/
-def getMatchesWith (similar : Bytes → Bytes → Bool) : Nat → Cmd → List Bytes → P → R Unit
-  | fuel, c, toks, p =>
-    match parse similar fuel c toks p with
-    | (p1, .error e) =>
-      if c.settings.ignoreErrors then
-        let p2 := (addEnv c c.args p1).1
-        let p3 := (addDefaults c c.args p2).1
-        (p3, .error e)
-      else (p1, .error e)
-    | (p1, .ok ()) =>
-      match resolvePending c p1 with
-      | (p2, .error e) => (p2, .error e)
-      | (p2, .ok ()) =>
-        match addEnv c c.args p2 with
-        | (p3, .error e) => (p3, .error e)
-        | (p3, .ok ()) =>
-          match addDefaults c c.args p3 with
-          | (p4, .error e) => (p4, .error e)
-          | (p4, .ok ()) =>
-            match Validator.validate c p4 with
-            | .error e => (p4, .error e)
-            | .ok () => (p4, .ok ())
-end
+/-- `Parser::parse`: the token loop, then the descent into the subcommand -/
+def parse (similar : Bytes → Bytes → Bool) (descend : Descend) (c : Cmd) (toks : List Bytes) (p : P) : Option (R Unit) :=
+  match loop c similar {} toks p with
+  | (p1, .error e) => some (p1, .error e)
+  | (p1, .ok .done) => some (p1, .ok ())
+  | (p1, .ok (.external name rest)) => some ({ p1 with sub := [(name, externalMatches rest)] }, .ok ())
+  | (p1, .ok (.sub name rest keep vaf)) =>
+    if c.settings.argsConflictsWithSubcommands && vaf then
+      -- `subcommand_conflict`; ids that are not args (groups) are skipped (after the `fix:` for finding F1;
+      -- it used to `unwrap()` `cmd.find(id)` for every id in the matcher)
+      some (p1, .error .argumentConflict)
+    else parseSub descend c name rest keep p1
+
+/-- `Parser::get_matches_with` with the recursive call abstracted -/
+def getMatchesWithCore (similar : Bytes → Bytes → Bool) (descend : Descend) (c : Cmd) (toks : List Bytes) (p : P) : Option (R Unit) :=
+  match parse similar descend c toks p with
+  | none => none
+  | some (p1, .error e) =>
+    if c.settings.ignoreErrors then
+      let p2 := (addEnv c c.args p1).1
+      let p3 := (addDefaults c c.args p2).1
+      some (p3, .error e)
+    else some (p1, .error e)
+  | some (p1, .ok ()) =>
+    match resolvePending c p1 with
+    | (p2, .error e) => some (p2, .error e)
+    | (p2, .ok ()) =>
+      match addEnv c c.args p2 with
+      | (p3, .error e) => some (p3, .error e)
+      | (p3, .ok ()) =>
+        match addDefaults c c.args p3 with
+        | (p4, .error e) => some (p4, .error e)
+        | (p4, .ok ()) =>
+          match Validator.validate c p4 with
+          | .error e => some (p4, .error e)
+          | .ok () => some (p4, .ok ())
+
+/-- `Parser::get_matches_with`; `fuel` bounds the number of descents, `none` = fuel
+exhausted (never when `c.height ≤ fuel + 1`, see `ClapProofs/C01`) -/
+def getMatchesWith (similar : Bytes → Bytes → Bool) : Nat → Descend
+  | 0 => getMatchesWithCore similar (fun _ _ _ => none)
+  | fuel+1 => getMatchesWithCore similar (getMatchesWith similar fuel)
 
 end Parser
 
@@ -125,28 +128,24 @@ end Globals
 
 namespace Command
 
-/-- height of the subcommand tree (fuel for descents) -/
-def height : Nat → Cmd → Nat
-  | 0, _ => 0
-  | n+1, c => 1 + (c.subs.map (height n)).foldl Nat.max 0
-
-/-- `_do_parse` on an already-built command -/
-def doParse (similar : Bytes → Bytes → Bool) (fuel : Nat) (c : Cmd) (toks : List Bytes) : Except EK Matches :=
-  let (p, r) := Parser.getMatchesWith similar fuel c toks {}
-  let finish : Unit → Except EK Matches := fun _ =>
-    let m : Matches := { args := p.args, subs := p.sub }
-    let globals := Globals.usedGlobalArgs (fuel + 1) c (m.subs.map (·.1))
-    .ok (Globals.propagate globals m)
-  match r with
-  | .ok () => finish ()
-  | .error e =>
-    match e with
-    | .panic _ => .error e
-    | .outOfFuel => .error e
-    | _ => if c.settings.ignoreErrors && e.useStderr then finish () else .error e
+/-- `_do_parse` on an already-built command; `none` = out of fuel -/
+def doParse (similar : Bytes → Bytes → Bool) (fuel : Nat) (c : Cmd) (toks : List Bytes) : Option (Except EK Matches) :=
+  match Parser.getMatchesWith similar fuel c toks {} with
+  | none => none
+  | some (p, r) =>
+    let finish : Unit → Except EK Matches := fun _ =>
+      let m : Matches := { args := p.args, subs := p.sub }
+      let globals := Globals.usedGlobalArgs (fuel + 1) c (m.subs.map (·.1))
+      .ok (Globals.propagate globals m)
+    match r with
+    | .ok () => some (finish ())
+    | .error e =>
+      match e with
+      | .panic _ => some (.error e)
+      | _ => if c.settings.ignoreErrors && e.useStderr then some (finish ()) else some (.error e)
 
 /-- `try_get_matches_from_mut` (no multicall): drop argv[0] unless `no_binary_name`, build, parse -/
-def tryGetMatchesFrom (similar : Bytes → Bytes → Bool) (depth : Nat) (c : Cmd) (argv : List Bytes) : Except EK Matches :=
+def tryGetMatchesFrom (similar : Bytes → Bytes → Bool) (depth : Nat) (c : Cmd) (argv : List Bytes) : Option (Except EK Matches) :=
   let toks := if c.settings.noBinaryName then argv else argv.drop 1
   doParse similar (depth + 2) (Build.buildAll (depth + 2) c) toks
 
